@@ -98,3 +98,13 @@ pub fn escape_double_quotes_only(content: &[u8]) -> Vec<u8> {
     crate::html::escape_double_quotes_only(Bytes::new(content), &mut |s| out.extend_from_slice(s));
     out
 }
+
+/// Builds the `InfoRequest` variant of a start-tag handling result (its payload type is
+/// crate-private), so that an external `TransformController` can ask for attribute info.
+pub fn info_request<C: crate::transform_stream::TransformController + 'static>(
+    f: Box<dyn FnOnce(&mut C, usize, bool) -> crate::rewritable_units::TokenCaptureFlags + Send>,
+) -> crate::transform_stream::DispatcherError<C> {
+    crate::transform_stream::DispatcherError::InfoRequest(Box::new(move |c, info| {
+        Ok(f(c, info.attr_buffer.len(), info.self_closing))
+    }))
+}
